@@ -69,6 +69,8 @@ type Contract struct {
 	ParamName []string // optional override of parameter names (extern)
 	Uses      []string // lemmas (proved elsewhere) assumed while verifying this function
 	Opaque2   []string // spec functions whose bodies are hidden while verifying this function
+	Persistent bool    // the call changes persistent state (a crash point follows it)
+	Crash     []Clause // crash invariants: must hold after every persistent call made by this function
 	Atomic2   []string // "atomic mu": all critical sections of lock mu in this function form one atomic step
 	Holds     []string // lock fields of the receiver the caller holds ("holds mu" / "holds mu:r")
 	Unshared  bool     // object under construction: lockset checks off
@@ -387,6 +389,10 @@ func (db *SpecDB) LoadFile(path, pkgPath string) error {
 			cur.ParamName = strings.Fields(rest)
 		case "opaque":
 			cur.Opaque2 = append(cur.Opaque2, strings.Fields(rest)...)
+		case "persistent":
+			cur.Persistent = true
+		case "crash":
+			cur.Crash = append(cur.Crash, Clause{Kind: word, Text: rest, File: path, Line: ln, Name: label})
 		case "holds":
 			cur.Holds = append(cur.Holds, strings.Fields(rest)...)
 		case "unshared":
